@@ -19,7 +19,7 @@ PYTHONPATH=$WT/src /venv/bin/python -m pytest -q -p no:cacheprovider tests --ign
 TESTS=$(cat /tmp/sv_tests_$$.txt)
 RES=""
 for C in $CHECKS; do
-  (cd /verif && VERIF_REPO=$WT ./check $C --tier quick --jobs ${SEED_JOBS:-8} > /tmp/sv_check_$$.txt 2>&1; echo $? > /tmp/sv_rc_$$.txt)
+  (cd /verif && VERIF_OUT=/tmp/seedout_$$ VERIF_REPO=$WT ./check $C --tier quick --jobs ${SEED_JOBS:-8} > /tmp/sv_check_$$.txt 2>&1; echo $? > /tmp/sv_rc_$$.txt)
   RC=$(cat /tmp/sv_rc_$$.txt)
   VL=$(grep -c '^VIOLATION' /tmp/sv_check_$$.txt)
   FIRST=$(grep -A1 '^VIOLATION' /tmp/sv_check_$$.txt | grep 'case=' | head -3 | tr '\n' ';' | cut -c1-600)
@@ -36,4 +36,4 @@ cat > "$OUT/meta.json" <<EOM
  "how":"tools/seed_verify.sh: scratch worktree /tmp/seed/<id> of /repo HEAD; demo.py on pristine tree, git apply patch.diff, demo.py again, full pytest (tests_plots excluded), then ./check <id> --tier quick with VERIF_REPO pointing at the patched worktree; worktree restored (and removed at the end of the session)"}
 EOM
 cat "$OUT/meta.json"
-rm -f /tmp/sv_*_$$.txt
+rm -f /tmp/sv_*_$$.txt; rm -rf /tmp/seedout_$$
